@@ -2,8 +2,8 @@ CONSTANTS
   FieldSet = {"f"}
   DocSet = {"d1", "d2"}
   StrTerms = {"a", "b"}
-  NumTerms <- Halves7
-  Bounds <- Bounds7
+  NumTerms <- Halves5
+  Bounds <- Bounds5
   MaxLen = 4
   EmitAll = TRUE
   Avoid = {}
